@@ -52,7 +52,8 @@ def _case(draw):
     comps = [(g["name"], j) for g in spec["glyphs"] for j in range(len(g.get("components", [])))]
     if comps and draw(st.booleans()):
         gname, j = draw(st.sampled_from(comps))
-        fam["tweaks"].append({"kind": "diff2x2", "glyph": gname, "comp": j, "master": draw(st.integers(0, nm - 1)), "factor": draw(st.sampled_from([1.1, 0.9, 1.5]))})
+        fam["tweaks"].append({"kind": "diff2x2", "glyph": gname, "comp": j, "master": draw(st.integers(0, nm - 1)), "factor": draw(st.sampled_from([1.1, 0.9, 1.5])),
+                              **draw(st.sampled_from([{}, {"entry": 0}, {"entry": 1}, {"entry": 2}, {"entry": 3}, {"entry": 3}]))})
     lines = [(g["name"], ci, pi) for g in spec["glyphs"] for ci, c in enumerate(g.get("contours", [])) for pi in range(1, len(c) - 1) if c[pi][2] == "line" and c[pi - 1][2] is not None]
     if lines and draw(st.sampled_from([True, False, False])):
         gname, ci, pi = draw(st.sampled_from(lines))
@@ -185,6 +186,9 @@ def run_case(case, ctx):
         ctx.label("cubic")
     if any(t["kind"] == "diff2x2" for t in fam["tweaks"]):
         ctx.label("differing-2x2")
+    for t in fam["tweaks"]:
+        if t["kind"] == "diff2x2" and "entry" in t:
+            ctx.label("differing-2x2-entry-%s-only" % ("xx", "xy", "yx", "yy")[t["entry"]])
     if any(t["kind"] == "zero-length" for t in fam["tweaks"]):
         ctx.label("zero-length-line-in-one-master")
     ctx.label("ttf" if ttf else "otf")
